@@ -398,7 +398,7 @@ where
     S: BumpAllocatorSettings,
 {
     let unallocated = bump.stats().current_chunk().is_none();
-    match ctx.rng.below(3) {
+    match ctx.rng.below(4) {
         0 => {
             // raise the minimum alignment by value and come back
             ctx.begin(format!("with_settings<MIN_ALIGN=16> and back (outer {})", S::MIN_ALIGN));
@@ -431,6 +431,50 @@ where
                     match classify(&p) {
                         PanicKind::Msg(m) if m.contains("unallocated") && unallocated => {}
                         k => ctx.viol("C18", "conversion_to_guaranteed_allocated_panicked_wrongly".into(), format!("unallocated={unallocated} panic={k:?}")),
+                    }
+                    ctx.view = Snap { typed: Default::default(), any: Default::default(), content_ptrs: Vec::new() };
+                    let b = initial::<A, S>(ctx)?;
+                    bump_after(ctx, &b, Expect { may_decrease: true, ..Default::default() });
+                    Some(b)
+                }
+            }
+        }
+        2 => {
+            // CLAIMABLE = false requires an unclaimed arena
+            // (the claimed case leaks the arena by design, which Miri's leak check would report)
+            let claimed = !cfg!(miri) && ctx.rng.chance(1, 3);
+            ctx.begin(format!("with_settings<CLAIMABLE=false> on {} arena", if claimed { "a claimed (leaked guard)" } else { "an unclaimed" }));
+            ctx.sh.clear();
+            if claimed {
+                std::mem::forget(bump.claim());
+            }
+            let r = guarded(|| bump.with_settings::<S::WithClaimable<false>>());
+            ctx.ev("conversion_probe");
+            match r {
+                Ok(g) => {
+                    if claimed {
+                        ctx.viol("C18", "conversion_to_unclaimable_accepted_claimed_arena".into(), String::new());
+                    }
+                    let b = g.with_settings::<S>();
+                    bump_after(ctx, &b, Expect { may_decrease: true, ..Default::default() });
+                    Some(b)
+                }
+                Err(p) => {
+                    match classify(&p) {
+                        PanicKind::Msg(m) if m.contains("claimed") && claimed => {}
+                        k => ctx.viol("C18", "conversion_to_unclaimable_panicked_wrongly".into(), format!("claimed={claimed} panic={k:?}")),
+                    }
+                    // the claimed arena was dropped by the unwinding: a leaked claim guard leaks the arena (documented)
+                    {
+                        let mut m = ctx.mon.borrow_mut();
+                        m.grants.iter_mut().for_each(|g| g.live = false);
+                        m.live_count = 0;
+                        m.live_bytes = 0;
+                        // nobody will touch that memory again: give it back to the system, and keep
+                        // the event-log pairing check quiet for these grants
+                        m.teardown();
+                        m.log.clear();
+                        m.grants.clear();
                     }
                     ctx.view = Snap { typed: Default::default(), any: Default::default(), content_ptrs: Vec::new() };
                     let b = initial::<A, S>(ctx)?;
